@@ -1,3 +1,15 @@
+//! vf-sbor: SBOR wire reference (R2), value / payload generators (R3) and the checks C20, C21, C23.
+
+pub mod alloc_hook;
+pub mod c20;
+pub mod c21;
+pub mod c23;
+pub mod conv;
+pub mod schemair;
+pub mod typed;
+pub mod valgen;
+pub mod wire;
+
 pub fn checks() -> Vec<vf_core::Check> {
-    vec![]
+    vec![c20::check(), c21::check(), c23::check()]
 }
